@@ -20,6 +20,11 @@ PART = {
     text="(F97 / F98) after a row-group flush that failed half-way, and after a write_batch that failed past its argument checks, no later flush and no close reports OK, whatever calls follow (C05_failed_flush_poisons_close, C05_failed_batch_poisons_close; a batch refused by the argument checks changes nothing: C05_rejected_batch_harmless; the pinned writer repeated the flush, or carried on after the half-taken batch, and reported an invalid file complete: C05_regression_F97, C05_regression_F98, both found by the c05alloc component)",
     rule="c05alloc: a well-formed history executed with ONE allocation failure inside a row-group flush or the close (every k-th request of those calls; quick: every (K/25)-th), a failed carquet_writer_new_row_group is called again; the same with the failure allowed inside write_batch calls too (wb=1; the caller carries on with the rest of the history); whenever close said OK the file goes to the independent reader (`wrspec`: the table of the history if every call said OK, structural validity otherwise)",
   ),
+  "C03": dict(
+    imports=[], obligations=[], components=["stats"],
+    fidelity={"Impl.Stats / Impl.ReaderApi statistics accessors (dependency: chunk statistics are metadata, and metadata must be the same in the three modes)": "exact"},
+    rule="stats (shared with C16): footers given chunk statistics in every placement of the Statistics fields (new, deprecated only, mixed) are read through carquet_reader_open_buffer, stdio and mmap: column_statistics (statuses, presence flags, bounds byte for byte) and row_group_matches verdicts must agree (p_stat_modes_agree)",
+  ),
   "C06": dict(
     imports=[], obligations=[], components=["rle"],
     fidelity={"Impl.Rle (dependency: the dictionary indices and levels of every page go through the hybrid decoder)": "exact"},
